@@ -97,6 +97,8 @@ let parse_op t : op = match next t with
   | "pariter" -> let s = num t in let var = num t in let d = num t in OParIter (s, var, d, nlist t)
   | "parextend" -> let s = num t in let nch = inum t in
     OParExtend (s, rep nch (fun () -> tlist t))
+  | "serialize" -> OSerialize (num t)
+  | "deserinplace" -> let s = num t in let h = num t in ODeserInPlace (s, tlist t, h)
   | "setalg" -> let k = num t in let a = num t in OSetAlg (k, a, num t)
   | "setpred" -> let k = num t in let a = num t in OSetPred (k, a, num t)
   | s -> raise (Parse ("op " ^ s))
